@@ -57,7 +57,7 @@ NewSock == /\ IsEvent("op") /\ Ev.op \in {"udp", "tcp"} /\ expect = NoExp
            /\ socks' = (Ev.s :> [typ |-> Ev.op, v |-> Ev.v, st |-> "init", laddr |-> AnyA, lport |-> 0, raddr |-> AnyA, rport |-> 0,
                                  nets |-> {Ev.v}, rcvclosed |-> FALSE, v6only |-> FALSE,
                                  holds |-> FALSE, haddr |-> AnyA, hport |-> 0, hnets |-> {},
-                                 tcpst |-> "", syn |-> <<-1, -1>>, peers |-> {}]) @@ socks
+                                 tcpst |-> "", syn |-> <<-1, -1>>, peers |-> {}, kids |-> {}]) @@ socks
            /\ q' = (Ev.s :> <<>>) @@ q
            /\ UNCHANGED <<addrs, promisc, pemit, expect>>
 
@@ -207,6 +207,14 @@ InjectTcp == /\ IsEvent("op") /\ Ev.op = "inject" /\ Ev.kind = "tcp" /\ expect =
                             \* ... and so may the half-open connections a listener created for the peers whose SYN it answered
                             \/ \E x \in Sids : (socks[x].typ = "tcp" /\ <<Ev.src, Ev.sport>> \in socks[x].peers /\ socks[x].lport = Ev.dport
                                                   /\ (socks[x].laddr = Ev.dst \/ socks[x].laddr = AnyA) /\ socks[x].st # "listen")
+                    \* a connection the listener created (its SYN-ACK is on the wire): the 4-tuple is the most specific binding from then
+                    \* on.  The segment that acknowledges the SYN-ACK goes to that connection and completes its handshake (data it
+                    \* carries may be dropped: the peer retransmits): Accept then returns the connection.  In-order data that arrives
+                    \* once it has been accepted is acknowledged by the CONNECTION at once (the listener never would)
+                    kidset == IF t # NoSock /\ socks[t].st = "listen" /\ Ev.flags \in {"A", "PA"}
+                              THEN {k \in socks[t].kids : k.src = Ev.src /\ k.sport = Ev.sport /\ k.rcv = <<Ev.seqhi, Ev.seqlo>> /\ k.snd = <<Ev.ackhi, Ev.acklo>>
+                                                            /\ (~k.done \/ (k.est /\ Ev.pay.n > 0))}
+                              ELSE {}
                 IN
                 IF ling
                 THEN /\ expect' = [kind |-> "notcp", src |-> Ev.dst, dst |-> Ev.src, sport |-> Ev.dport, dport |-> Ev.sport, tosock |-> TRUE]
@@ -216,9 +224,16 @@ InjectTcp == /\ IsEvent("op") /\ Ev.op = "inject" /\ Ev.kind = "tcp" /\ expect =
                                 seq |-> IF HasFlag(Ev, "A") THEN <<Ev.ackhi, Ev.acklo>> ELSE <<0, 0>>,
                                 ack |-> Add32(Ev.seqhi, Ev.seqlo, SegLen(Ev))]
                      /\ UNCHANGED socks
+                ELSE IF kidset # {}
+                THEN LET k == CHOOSE x \in kidset : TRUE
+                         nxt == Add32(Ev.seqhi, Ev.seqlo, Ev.pay.n) IN
+                     /\ expect' = IF k.est
+                                  THEN [kind |-> "dataack", src |-> Ev.dst, dst |-> Ev.src, sport |-> Ev.dport, dport |-> Ev.sport, seq |-> k.snd, ack |-> nxt]
+                                  ELSE [kind |-> "notcp", src |-> Ev.dst, dst |-> Ev.src, sport |-> Ev.dport, dport |-> Ev.sport, tosock |-> TRUE]
+                     /\ socks' = [socks EXCEPT ![t].kids = (@ \ {k}) \cup {IF k.est THEN [k EXCEPT !.rcv = nxt] ELSE [k EXCEPT !.done = TRUE]}]
                 ELSE IF lsyn
                 THEN /\ expect' = [kind |-> "synack", src |-> Ev.dst, dst |-> Ev.src, sport |-> Ev.dport, dport |-> Ev.sport,
-                                    ack |-> Add32(Ev.seqhi, Ev.seqlo, 1)]
+                                    ack |-> Add32(Ev.seqhi, Ev.seqlo, 1), ls |-> t]
                      /\ socks' = [socks EXCEPT ![t].peers = @ \cup {<<Ev.src, Ev.sport>>}]
                 ELSE IF synack
                 THEN /\ expect' = [kind |-> "hsack", src |-> Ev.dst, dst |-> Ev.src, sport |-> Ev.dport, dport |-> Ev.sport,
@@ -251,7 +266,7 @@ EmitTcpOther == /\ IsEvent("emit") /\ Ev.kind = "tcp" /\ expect.kind \in {"notcp
 \* (the reset of the no-socket path is emitted synchronously inside the injection, so it must be there at the next settle;
 \* the final ACK of an active open and the SYN-ACK of a listener come from protocol goroutines: they may be late, so such an
 \* expectation survives a settle and is simply dropped at the next operation - what it still forbids is a RESET instead)
-Settle == /\ IsEvent("op") /\ Ev.op \in {"settle", "sleep"} /\ expect.kind # "rst"
+Settle == /\ IsEvent("op") /\ Ev.op \in {"settle", "sleep"} /\ expect.kind \notin {"rst", "dataack"}
           /\ expect' = (IF expect.kind \in {"hsack", "synack"} THEN expect ELSE NoExp) /\ UNCHANGED <<addrs, promisc, socks, q, pemit>>
 EndExpect == /\ expect.kind \in {"notcp", "hsack", "synack"} /\ l <= NT /\ Trace[l].ev = "op" /\ Trace[l].op \notin {"settle", "sleep"}
              /\ expect' = NoExp /\ UNCHANGED <<l, addrs, promisc, socks, q, pemit>>
@@ -269,8 +284,15 @@ TcpConnect == /\ IsEvent("op") /\ Ev.op = "connect" /\ expect = NoExp /\ socks[E
                                              ![Ev.s].holds = FALSE, ![Ev.s].tcpst = "synsent"]
                  ELSE UNCHANGED socks
               /\ UNCHANGED <<addrs, promisc, q, pemit, expect>>
+\* a connection whose handshake the peer has completed is handed out by Accept (the oldest one first is not demanded)
+Ready(s) == {k \in socks[s].kids : k.done /\ ~k.est}
 TcpAccept == /\ IsEvent("op") /\ Ev.op = "accept" /\ expect = NoExp /\ socks[Ev.s].typ = "tcp"
-             /\ UNCHANGED <<addrs, promisc, socks, q, pemit, expect>>
+             /\ IF Ready(Ev.s) # {}
+                THEN /\ Ev.err = ""
+                     /\ \E k \in Ready(Ev.s) : k.src = Ev.raddr /\ k.sport = Ev.rport
+                     /\ socks' = [socks EXCEPT ![Ev.s].kids = {IF k.src = Ev.raddr /\ k.sport = Ev.rport THEN [k EXCEPT !.est = TRUE] ELSE k : k \in @}]
+                ELSE UNCHANGED socks
+             /\ UNCHANGED <<addrs, promisc, q, pemit, expect>>
 \* the SYN of an active open (first transmission or retransmission): remember its sequence number
 EmitSyn == /\ IsEvent("emit") /\ Ev.kind = "tcp" /\ HasFlag(Ev, "S") /\ ~HasFlag(Ev, "A") /\ ~HasFlag(Ev, "R") /\ SynOf(Ev) # {}
            /\ socks' = [s \in Sids |-> IF s \in SynOf(Ev) THEN [socks[s] EXCEPT !.syn = <<Ev.seqhi, Ev.seqlo>>] ELSE socks[s]]
@@ -282,7 +304,16 @@ EmitSynAck == /\ IsEvent("emit") /\ Ev.kind = "tcp" /\ expect.kind = "synack"
               /\ Ev.src = expect.src /\ Ev.dst = expect.dst /\ Ev.sport = expect.sport /\ Ev.dport = expect.dport
               /\ <<Ev.ackhi, Ev.acklo>> = expect.ack
               /\ expect' = [kind |-> "notcp", src |-> expect.src, dst |-> expect.dst, sport |-> expect.sport, dport |-> expect.dport, tosock |-> TRUE]
-              /\ UNCHANGED <<addrs, promisc, socks, q, pemit>>
+              /\ socks' = [socks EXCEPT ![expect.ls].kids = @ \cup {[src |-> expect.dst, sport |-> expect.dport, rcv |-> expect.ack,
+                                                                      snd |-> Add32(Ev.seqhi, Ev.seqlo, 1), done |-> FALSE, est |-> FALSE]}]
+              /\ UNCHANGED <<addrs, promisc, q, pemit>>
+\* the connection acknowledges exactly the data it was handed (a hard obligation: Settle is not enabled while it is open)
+EmitDataAck == /\ IsEvent("emit") /\ Ev.kind = "tcp" /\ expect.kind = "dataack"
+               /\ HasFlag(Ev, "A") /\ ~HasFlag(Ev, "R") /\ ~HasFlag(Ev, "S")
+               /\ Ev.src = expect.src /\ Ev.dst = expect.dst /\ Ev.sport = expect.sport /\ Ev.dport = expect.dport
+               /\ <<Ev.seqhi, Ev.seqlo>> = expect.seq /\ <<Ev.ackhi, Ev.acklo>> = expect.ack /\ Ev.sumok
+               /\ expect' = [kind |-> "notcp", src |-> expect.src, dst |-> expect.dst, sport |-> expect.sport, dport |-> expect.dport, tosock |-> TRUE]
+               /\ UNCHANGED <<addrs, promisc, socks, q, pemit>>
 EmitHsAck == /\ IsEvent("emit") /\ Ev.kind = "tcp" /\ expect.kind = "hsack"
              /\ HasFlag(Ev, "A") /\ ~HasFlag(Ev, "R") /\ ~HasFlag(Ev, "S")
              /\ Ev.src = expect.src /\ Ev.dst = expect.dst /\ Ev.sport = expect.sport /\ Ev.dport = expect.dport
@@ -299,6 +330,6 @@ Avail == /\ IsEvent("op") /\ Ev.op = "avail" /\ expect = NoExp
 
 TNext == Reset \/ NewSock \/ Bind \/ Connect \/ Listen \/ SetOpt \/ Write \/ EmitUdp \/ InjectUdp \/ Read \/ ReadAll
          \/ Shutdown \/ Close \/ AddrOps \/ InjectTcp \/ EmitRst \/ EmitTcpOther \/ Settle \/ EndExpect \/ EmitOther
-         \/ TcpConnect \/ TcpAccept \/ EmitSyn \/ EmitHsAck \/ EmitSynAck \/ Avail
+         \/ TcpConnect \/ TcpAccept \/ EmitSyn \/ EmitHsAck \/ EmitSynAck \/ EmitDataAck \/ Avail
 TSpec == TInit /\ [][TNext]_tvars
 ====
